@@ -79,8 +79,17 @@ def run(pid, tier, plan, oracle_name, monitors_name=None, assumptions=(), extra_
             if budget and t1 - t0 > budget:
                 per_prog.append(dict(program=prog["name"], skipped="budget"))
                 continue
-            s = explore.explore(pool, prog, bound, opts, oracle_name)
-            per_prog.append(dict(program=prog["name"], bound_completed=bound,
+            # with a budget, one program may use what is left of it (at least 5 min): a bound-2
+            # sweep that does not fit is cut between rounds of first-level subtrees and
+            # reported as partial
+            limit = max(300.0, budget - (t1 - t0)) if budget else None
+            s = explore.explore(pool, prog, bound, opts, oracle_name, time_limit=limit)
+            done, tot = getattr(s, "subtrees_done", 0), getattr(s, "subtrees_total", 0)
+            per_prog.append(dict(program=prog["name"],
+                                 bound_completed=bound if done == tot else 0,
+                                 **({"partial": f"bound {bound} cut by the budget: {done} of {tot} "
+                                                f"groups of first-level subtrees explored"}
+                                    if done != tot else {}),
                                  policy=(opts.get("starve") or "fifo")
                                  + ("+lines" if opts.get("lines") else ""),
                                  kinds="".join(sorted(opts.get("kinds", "PTK"))),
